@@ -968,6 +968,17 @@ func (env *Env) evalCall(e *SCall) (Val, error) {
 				base = env.old.Get("clk", SInt)
 			}
 			return Val{T: tLt(base, Term{fmt.Sprintf("(atime %s)", r.S), SInt})}, nil
+		case "funcval":
+			// funcval("(*T).Method") / funcval("name"): the function value of a function of the current package
+			lit, ok := e.Args[0].(*SStrLit)
+			if !ok || len(e.Args) != 1 || env.pkg == nil {
+				return Val{}, fmt.Errorf("funcval needs one string literal")
+			}
+			f := env.fr.vc.sess.findFunction(&Contract{Pkg: env.pkg.Path(), Key: lit.Val})
+			if f == nil {
+				return Val{}, fmt.Errorf("funcval: no function %s in %s", lit.Val, env.pkg.Path())
+			}
+			return Val{T: env.fr.funcID(f)}, nil
 		case "arrayOf":
 			// arrayOf(s): identity of the backing array of slice s
 			x, err := env.eval(e.Args[0])
@@ -1377,6 +1388,11 @@ func (env *Env) evalModTargets(e SExpr) ([]modTarget, error) {
 			return nil, fmt.Errorf("modifies *x needs a pointer")
 		}
 		return env.targetsOfLoc(te.PtrLoc(pt, x.T)), nil
+	}
+	if id, ok := e.(*SIdent); ok && id.Name == "epoch" {
+		// the heap epoch: what abstract accessors (pure functions of an object) depend on; "modifies epoch" says that
+		// such accessors may answer differently afterwards while every modelled heap location keeps its value
+		return []modTarget{{heap: "epoch", sort: SInt, all: true}}, nil
 	}
 	if id, ok := e.(*SIdent); ok {
 		if gv, ok := fr.vc.sess.specs.Ghosts[id.Name]; ok {
